@@ -201,7 +201,7 @@ fingerprint of the full event log (task, site/event name in global order) plus e
 interval, clock and result.";
 
 const C19_ASSUMPTIONS: &[&str] = &[
-    "A1: a content change is visible as an mtime change (the simulator gives every write a unique mtime); same-mtime content swaps are outside the fault model",
+    "A1: a content change is visible as an mtime change (the simulator gives every write a unique mtime); same-mtime content swaps are outside the simulated fault model, except that a deterministic probe per on-disk back-end demands a re-read of a same-mtime replacement after reset()",
     "A2: on-disk zone names are unique under ASCII case folding",
     "A3: database paths are absolute",
     "A4: jiff's in-memory TZif parser (TimeZone::tzif) is the reference for which zone given bytes denote",
@@ -266,7 +266,8 @@ fn c19_calibrate(seed: u64, replay_dir: &Path) -> Result<Value, i32> {
             Ok(json!({
                 "measured": c.measured.iter()
                     .map(|m| json!({"backend": m.backend, "zone_refresh_after_ns": m.zone_refresh_after_ns,
-                                    "names_refresh_after_ns": m.names_refresh_after_ns, "oracle_ttl_ns": m.ttl_ns}))
+                                    "names_refresh_after_ns": m.names_refresh_after_ns, "oracle_ttl_ns": m.ttl_ns,
+                                    "reset_rereads_replacement_with_same_mtime": true}))
                     .collect::<Vec<_>>(),
                 "notes": c.notes,
             }))
@@ -305,7 +306,7 @@ fn run_c19(args: &Args) -> i32 {
     let calib_json = match c19_calibrate(seed, &replay_dir) {
         Ok(v) => v,
         Err(code) => {
-            // Entries never expire: nothing else was run.
+            // Entries never expire, or survive a reset: nothing else was run.
             let empty: BatchResult<c19::case::Case> = BatchResult {
                 stats: Stats::default(),
                 found: None,
@@ -314,7 +315,7 @@ fn run_c19(args: &Args) -> i32 {
                 workers,
             };
             let extra = json!({"violation": {"clause": "freshness",
-                "detail": "the time-to-live measurement found that cached entries do not expire",
+                "detail": "the time-to-live / reset measurement found that cached entries do not expire or survive a reset (see the replay file)",
                 "replay": replay_dir.join(format!("C19-{seed}-calibration.json"))}});
             let ev = evidence("C19", tier, seed, &empty, extra, 1, C19_RULE, C19_ASSUMPTIONS, c19_real_stub());
             write_evidence(&evidence_path, &ev);
@@ -854,7 +855,7 @@ fn run_replay(args: &Args) -> i32 {
         }
         "C19-calibration" => match c19_calibrate(0, &std::env::temp_dir()) {
             Ok(_) => {
-                println!("replay of {path}: cached entries expire on the current tree");
+                println!("replay of {path}: cached entries expire and do not survive a reset on the current tree");
                 0
             }
             Err(code) => code,
